@@ -245,6 +245,16 @@ func runProperty(prop, tier string) int {
 			confirmed := false
 			var labels []string
 			switch v.Kind {
+			case "budget":
+				// the engine ran out of steps: what does the real build do?
+				switch {
+				case res.Timeout:
+					confirmed, labels = true, []string{"does not terminate natively (wall-clock cap)"}
+				case res.Panic != "":
+					confirmed, labels = true, []string{"crashes natively: " + res.Panic}
+				case len(res.Failed) > 0:
+					confirmed, labels = true, res.Failed
+				}
 			case "assert":
 				confirmed = len(res.Failed) > 0
 				labels = res.Failed
